@@ -189,7 +189,7 @@ def loop_iterations_all_call(b, call_bbs, detail=None):
         inloop = [p for p in call_bbs if p in blocks]
         if not inloop:
             continue
-        nexts = [x for x in blocks if b.term(x)["k"] == "call" and re.search(r"Iterator>?::next$", callee_name(b.term(x)) or "")]
+        nexts = [x for x in blocks if b.term(x)["k"] == "call" and re.search(r"Iterator>?::next$|Iterator for .*>::next$", callee_name(b.term(x)) or "")]
         if not nexts:
             continue
         ok = True
